@@ -785,7 +785,13 @@ func detScript(r *term.Rng, names []string) string {
 				n, term.Pick(r, evs), term.Pick(r, evs))
 		}
 		if r.Chance(3, 4) {
-			fmt.Fprintf(&sb, "register_ult_cb(%s, fn () { return ult(%s); });\n", n, term.Pick(r, evs))
+			if r.Chance(1, 3) {
+				// an ult callback with an effect of its own: it draws from the run's generator each time it is
+				// consulted (a callback that is registered or consulted once too often shows in every later draw)
+				fmt.Fprintf(&sb, "register_ult_cb(%s, fn () { if rand() < 0.7 { return ult(%s); } return null; });\n", n, term.Pick(r, evs))
+			} else {
+				fmt.Fprintf(&sb, "register_ult_cb(%s, fn () { return ult(%s); });\n", n, term.Pick(r, evs))
+			}
 		}
 	}
 	return sb.String()
